@@ -20,7 +20,7 @@ RULE = ("fake ACN-Data server holding 0-250 documents (unique _id, RFC-1123 stri
         "get_sessions_by_time (the server parses the where clause back and filters); host TZ varied; non-trivial = >=3 pages "
         "with >=1 empty page, or a document in a DST-transition hour; distinct = (page plan shape, args, fault, TZ)")
 PROBES = ["empty_page_middle", "empty_page_end", "zero_documents", "three_plus_pages", "dst_transition_doc", "timeseries_doc",
-          "by_time_query", "page_chain_over_1000", "fault:not_json", "fault:error_doc", "fault:connection", "invalid_site", "host_tz_non_utc",
+          "by_time_query", "page_chain_over_1000", "stale_meta_total", "fault:not_json", "fault:error_doc", "fault:connection", "invalid_site", "host_tz_non_utc",
           "roundtrip_checked", "timeseries_spans_dst", "concurrent_generators", "interleaved_switches", "underscore_date_field",
           "new_year_query_bound", "prelude_query_on_same_client"]
 FAULT_DIMENSION = "interleaving of up to three generators of one client (seeded scheduler decides who advances); server-side faults at page k: non-JSON body, error document without _items, transport ConnectionError (client has no retry: must raise, never end silently)"
@@ -120,6 +120,7 @@ def gen(rs, tier):
         pages, mode, fault, extra, prelude = [1] * n, "plain", None, [], None
         args = {"site": args["site"] if args["site"] in ("caltech", "jpl", "office001") else "caltech", "timeseries": False}
     return {"seed": rs, "docs": docs, "pages": pages, "mode": mode, "args": args, "fault": fault, "extra_queries": extra, "prelude": prelude,
+            "stale_total": sub(rs, "stale_total").choice([0, 0, 0, 0, 1, 3, 50]),
             "host_tz": r.choice(HOST_TZ), "roundtrip": [(r.choice(DST_EPOCHS + [base]) + r.randint(-7200, 7200), r.choice(ZONES)) for _ in range(3)]}
 
 
@@ -152,6 +153,9 @@ def check(sc):
     raw = {d["_id"]: d for d in sc["docs"]}
     server = FakeServer([serialise(d) for d in sc["docs"]], sc["pages"],
                         faults=({sc["fault"]["at"]: sc["fault"]["kind"]} if sc["fault"] else None))
+    server.stale_total = sc.get("stale_total", 0)
+    if server.stale_total:
+        out.probe("stale_meta_total")
     for xq in sc.get("extra_queries", []):
         server.add_site(xq["site"], [serialise(d) for d in xq["docs"]], xq["pages"])
     orig = dc_mod.requests
